@@ -27,6 +27,8 @@
     lex_string_label_range         all sources: a top-level string-literal error label is
                                    non-empty, ordered and inside the source
     lex_string_wf_partial          ASCII-only sources: that label is fully WF
+    lex_string_wf_utf8_partial     every UTF-8 source: fully WF unless the error is an invalid escape
+                                   with a non-ASCII character (exact complement of D_lexer_char_span)
     lex_quoted_wf                  all sources: the label of an unterminated s'/r'/t' literal is WF
 -/
 import VrlProofs.Lemmas.C33
@@ -155,6 +157,26 @@ theorem lex_string_wf_partial (src : List Nat) (e : LexErr) (hne : src ≠ [])
     (ha : ∀ b ∈ src, b < 128) (h : lexStringAt0 src = .error e) : WF src e.label := by
   have hr := lex_string_label_range src e hne h
   exact ⟨by omega, hr.2, ascii_boundary ha (by omega), ascii_boundary ha hr.2⟩
+
+/-- every (UTF-8) source: the label of a top-level string-literal error is well-formed UNLESS the
+    error is an invalid escape whose offending character is not ASCII (`LexErr.splitsChar`, finding
+    class D_lexer_char_span). This is the exact complement of that class. -/
+theorem lex_string_wf_utf8_partial (tl : List Nat) (e : LexErr) (hu : wfUtf8 (34 :: tl) = true)
+    (h : lexStringAt0 (34 :: tl) = .error e) (hcl : e.splitsChar = false) :
+    WF (34 :: tl) e.label := by
+  have hu' : wfUtf8 tl = true := by
+    unfold wfUtf8 at hu; simpa using hu
+  have hc : Chain (34 :: tl) 1 (charIndicesFrom 1 tl) := by
+    have := chain_charIndicesFrom 1 tl [34] rfl hu'
+    simpa using this
+  have hs := chain_start hc
+  have hdrop : (charIndices (34 :: tl)).drop 1 = charIndicesFrom 1 tl := by
+    unfold charIndices
+    rw [charIndicesFrom_ascii 0 34 tl (by omega)]
+    rfl
+  unfold lexStringAt0 at h
+  rw [hdrop] at h
+  exact scanString_label_wf (34 :: tl) 0 rfl hs.2.1 (by simp) _ .normal 1 e hc (by simp [StB]) h hcl
 
 /-- all sources: an unterminated `s'…`, `r'…`, `t'…` literal at the start of the source is
     reported at `(0, 1)`, which is well-formed. -/
